@@ -23,14 +23,16 @@ PROP = dict(
                            "monitor:cut-fraction": 20000, "monitor:two-dimension-lists": 10000,
                            "polyline::set": 5000, "monitor:polyline-points": 100000, "monitor:polyline-parts-iterated": 50000,
                            "exhaustive:nd-instances": 400000, "monitor:nd-lists": 900000, "monitor:nd-cut-fraction": 300000,
-                           "monitor:nd-trim-fraction": 300000, "monitor:nd-cut-zero": 300000, "monitor:nd-coverage-points": 500000}),
+                           "monitor:nd-trim-fraction": 300000, "monitor:nd-cut-zero": 300000, "monitor:nd-coverage-points": 500000,
+                           "monitor:polyline2-lists": 40000, "monitor:polyline2-drawn-points": 150000, "polyline::part::points": 80000,
+                           "state:two-point-part-cut-and-trim": 5000, "state:empty-part-with-cut-or-trim": 1000}),
               ],
         rule=("case = (a) one class sequence (exhaustive by index) instantiated in 5 scalings, or (b) one PRNG sequence of 1..300 reals "
               "with a PRNG range, or (c) one data set with a run of 65533..65538 points of one kind plus head/tail classes, or several runs "
               "of PRNG lengths, or (d) one (to.raw, post.raw) pair of synthetic joins with all usr/cut/trim variants; non-trivial = the data "
               "contain an in-range and an out-of-range point (a), at least one segment crossing the range boundary and only finite values (b), "
               "always (c), raw total > 65530 (d); distinct = 64-bit hash of values and range"),
-        exhaustive_note="all sequences over {below, at-min, inside, at-max, above} of length 1..7 (quick) / 1..8 (thorough) x 5 scalings x call windows {all, 1, 2, 3}; two limited dimensions in turn: all class sequences of length 1..4 (quick) / 1..5 (thorough) per dimension, three dimensions: 1..2 / 1..3, each after set(n) and on an empty array",
+        exhaustive_note="all sequences over {below, at-min, inside, at-max, above} of length 1..7 (quick) / 1..8 (thorough) x 5 scalings x call windows {all, 1, 2, 3}; two limited dimensions in turn: all class sequences of length 1..4 (quick) / 1..5 (thorough) per dimension, three dimensions: 1..2 / 1..3, each after set(n) and on an empty array; polyline over two limited dimensions: all class sequences of length 1..3 (quick) / 1..4 (thorough) per dimension",
         assumptions=SAN_BASE + ["drawn portion of a part = its first usr points (mptplot/values.h, polyline::part::line)",
                                 "cut is measured from the first, trim from the last drawn point towards its neighbour (linepart_linear.c)",
                                 "several dimensions: a point is visible when in range in every dimension; the line enters the box at the largest entering fraction "
